@@ -13,7 +13,13 @@ problem built by `symmetric_extension_hierarchy(states, probs, level, dim)` (lev
 measurements (local projective measurements in rational bases, one-way LOCC measurements with rank-one POVMs of the second party that depend on
 the first party's outcome, convex mixtures) are written into the captured variables together with the extension
 sum A (x) (w w^H)^(x)level (copies of Y last); every captured constraint and declared variable attribute must hold to 1e-10 and the captured
-objective must equal sum_i p_i tr(rho_i M_i) computed exactly."""
+objective must equal sum_i p_i tr(rho_i M_i) computed exactly.  On the same captured problems the constraint expressions are compared, at random
+Hermitian Gaussian-integer points, with the Lean mirror model `symExtExprs` (op c12_symext_exprs; evidence only).
+
+Stream `ppt_embedding`: the picos programs `ppt_distinguishability` builds (primal / dual, either party, and strategy="unambig") are captured at
+Problem.solve; exact points certified by the verified checkers (op c12_ppt_program) must satisfy every captured constraint, the captured objective must
+equal the model's, negative controls must be rejected by both.  Stream `args`: which program is built for (primal_dual, strategy) and how the `dim`
+argument of the hierarchy is read (ops c12_dispatch, c12_symext_args)."""
 from __future__ import annotations
 
 import copy
@@ -37,6 +43,10 @@ RULE = ("bipartite ensembles (2..4 states on 2x2 and 2x3 [thorough: also 3x2], r
         "symext_embedding: ensembles of 2..3 states on 2x2, 2x3, 3x2 (thorough 3x3) x levels 1, 2 (3 on 2x2; thorough also 2x3) x exact rational separable measurements of the "
         "kinds projective / locc / mixture (4..~20 product outcomes, complex), outcomes attributed by posterior weight or at random; non-trivial = at least two states "
         "receive an outcome and the ensemble is complex or the dimensions are unequal; "
+        "ppt_embedding: on every instance of the first stream the five programs (min_error primal/dual x party 0/1, unambig primal) are captured; points = an interior point, the "
+        "certified near-optimal point (primal: repaired reference POVM, dual: repaired reference (Y, Q), Q transposed for the other party), for unambig the always-inconclusive point and - for "
+        "two pure states given as vectors - an exact product-vector measurement; negative controls M[0]+1/8, the projector onto (e00+e11)/sqrt2 with its complement, Q[0]=-1/8, Y_opt-1/32, the uniform guess; "
+        "args: the four (primal_dual, strategy) combinations and eleven (length, level, dim) combinations incl. two that must be rejected; "
         "presentation: every call of ppt_distinguishability / state_distinguishability / symmetric_extension_hierarchy receives the same values in a freshly drawn "
         "presentation per list element (C / Fortran / strided memory layout; real-valued states as float64, integer-valued ones as int64); one in three complex "
         "ensembles of the kinds random / prod_ent has some states made real-valued (real-dtype first element followed by complex ones, or the reverse; also "
@@ -54,6 +64,12 @@ ASSUMPTIONS = [
     "point differs from it by <= 1e-16 per entry, hence the tolerance 1e-10 (observed residuals <= 1e-15); the embedded point is checked exactly (Fractions) against the linear "
     "constraints of the hierarchy before it is used; mutations that keep every separable measurement feasible (dropped constraint, partial transpose / partial trace on another copy "
     "of Y, which is equivalent under the symmetry constraint) are invisible to this stream by design",
+    "ppt_embedding: picos evaluates the captured constraint / objective expressions faithfully at assigned variable values (Constraint.psd / lhs / rhs, Expression.np / .value); a point is 'feasible' "
+    "only when the verified Lean checker accepts it with the supplied witnesses; a negative control is used only when the model's own expressions are infeasible by >= 1e-2 (or, for Y_opt - 1/32, when its "
+    "trace is below a certified lower bound of the optimum); strategy='unambig' is checked through its captured program only (CVXOPT does not solve that program; its value is bounded by theorem "
+    "ppt_unamb_le_min_error)",
+    "symext expression identity (evidence only, never an alarm): cvxpy evaluates Expression.value faithfully; the Lean mirror model symExtExprs composes the C02 / C03 / C18 mirror models as the code composes "
+    "the library calls; its identification with the index-tuple specification SymExtAt is not proved (each library call is proved equal to its own specification in C02 / C03 / C18)",
     "on 2x2 and 2x3 systems positive-partial-transpose operators are separable (Horodecki 1996; cited, not proved), so level 2 of the hierarchy must also be >= the certified PPT optimum",
 ]
 TAU = 2e-5
@@ -132,9 +148,9 @@ def _pj(probs):
     return [frac_json(DM.exact_float(np.array([[p]])).frac(0, 0)[0]) for p in probs]
 
 
-def certify_primal(drv, rhos, probs, Ms_f, dA, dB, sys, eps_bits=20):
+def certify_primal(drv, rhos, probs, Ms_f, dA, dB, sys, eps_bits=20, out=None):
     """repair (shrink towards I/k, which is PPT with margin; slack into the first element) and ask the Lean checker.
-    returns (lo or None, why)"""
+    returns (lo or None, why); `out` (a dict) receives the accepted exact point and its witnesses"""
     why = ""
     for eb in (eps_bits, eps_bits - 3, eps_bits - 6):
         P = repair_povm(Ms_f, eps_bits=eb)
@@ -149,14 +165,16 @@ def certify_primal(drv, rhos, probs, Ms_f, dA, dB, sys, eps_bits=20):
         r = drv.ask("c12_ppt_primal", {"dA": dA, "dB": dB, "sys": sys, "rho": [r_.json() for r_ in rhos], "p": _pj(probs),
                                        "M": [M.json() for M in P], "LM": [L.json() for L in LM], "LT": [L.json() for L in LT]})
         if "ok" in r:
+            if out is not None:
+                out.update(M=P, LM=LM, LT=LT, sys=sys)
             return r["ok"][0] / r["ok"][1], ""
         why = "primal:" + r["reject"]
     return None, why
 
 
-def certify_dual(drv, rhos, probs, Y_f, Qs_f, dA, dB, sys):
+def certify_dual(drv, rhos, probs, Y_f, Qs_f, dA, dB, sys, out=None):
     """Q_i + 2^-qb I, Y + 2^-yb I, recompute the slack exactly (tight margins first, looser ones if the witnesses fail);
-    returns (hi or None, why)"""
+    returns (hi or None, why); `out` (a dict) receives the accepted exact point and its witnesses"""
     D = dA * dB
     k = len(rhos)
     I = DM.eye(D)
@@ -179,6 +197,8 @@ def certify_dual(drv, rhos, probs, Y_f, Qs_f, dA, dB, sys):
         r = drv.ask("c12_ppt_dual", {"dA": dA, "dB": dB, "sys": sys, "rho": [r_.json() for r_ in rhos], "p": _pj(probs), "Y": Y.json(),
                                      "Q": [Q.json() for Q in Qs], "LQ": [L.json() for L in LQ], "LS": [L.json() for L in LS]})
         if "ok" in r:
+            if out is not None:
+                out.update(Y=Y, Q=Qs, LQ=LQ, LS=LS, sys=sys)
             return r["ok"][0] / r["ok"][1], ""
         why = "dual:" + r["reject"]
     return None, why
@@ -311,8 +331,9 @@ def _base(inst):
     return b
 
 
-def certified_interval(drv, inst, res, sys_primal=1, sys_dual=0):
-    """(lo, hi, rhos, rhos_f): the primal certificate transposes `sys_primal`, the dual one `sys_dual` (ppt_lo_le_hi allows that)"""
+def certified_interval(drv, inst, res, sys_primal=1, sys_dual=0, ref=None):
+    """(lo, hi, rhos, rhos_f): the primal certificate transposes `sys_primal`, the dual one `sys_dual` (ppt_lo_le_hi allows that);
+    `ref` (a dict) receives the reference solver's float optimisers (Ms, Y, Qs for party sys_dual)"""
     dA, dB, probs = inst["dA"], inst["dB"], inst["probs"]
     rhos = _dms_exact(inst["states"])
     rhos_f = [r.to_float() for r in rhos]
@@ -321,12 +342,324 @@ def certified_interval(drv, inst, res, sys_primal=1, sys_dual=0):
     except Exception:
         res.count("uncertified/ref-solve-failed")
         return None, None, rhos, rhos_f
+    if ref is not None:
+        ref.update(Ms=Ms, Y=Y, Qs=Qs, sys_dual=sys_dual)
     # the same measurement is PPT for either party; the dual variables Q_i belong to party sys_dual
     lo, w1 = certify_primal(drv, rhos, probs, Ms, dA, dB, sys_primal)
     hi, w2 = certify_dual(drv, rhos, probs, Y, Qs, dA, dB, sys_dual)
     if lo is None or hi is None or hi - lo > WIDTH_OK:
         res.count(("uncertified/" + (w1 or w2 or "wide"))[:70])
     return lo, hi, rhos, rhos_f
+
+
+# ------------------------------------------------------------------------------------------------
+# stream ppt_embedding — the picos programs that ppt_distinguishability BUILDS (captured at Problem.solve, never solved) against the
+# programs the theorems are about (Lean op `c12_ppt_program`: Toq.PPTDisc.primalPsdExprs / primalEqResidual / dualPsdExprs / unambOverlap and
+# the verified checkers; theorems primal_program_feasible_iff, dual_program_feasible_iff, checkPPTPrimal_sound, checkPPTDual_sound,
+# checkPPTUnambPrimal_sound).  Exact points are written into the captured variables:
+#   * a point the verified checker accepts must satisfy every captured constraint (1e-9) - also on the instances where CVXOPT cannot solve the
+#     primal form, and for strategy="unambig", which CVXOPT practically never solves;
+#   * the captured objective must equal the model's exact objective at every point;
+#   * negative controls (infeasible by construction, rejected by the checker) must violate a captured constraint by >= 1e-3.
+
+PEMB_TOL = 1e-12   # captured expression vs model expression, entrywise (float images of the same exact affine expression)
+PEMB_FEAS = 1e-9
+PEMB_BAD = 1e-3
+
+
+class _PCaptured(BaseException):
+    """raised by the patched picos.Problem.solve"""
+
+
+def _capture_picos(fn):
+    import picos
+    got = []
+    orig = picos.Problem.solve
+
+    def fake(self, *a, **kw):
+        got.append((self, dict(kw)))
+        raise _PCaptured()
+
+    picos.Problem.solve = fake
+    try:
+        try:
+            fn()
+        except _PCaptured:
+            pass
+    finally:
+        picos.Problem.solve = orig
+    return got
+
+
+def _qmat12(j, shape):
+    re = np.array([float(Fraction(n, d_)) for n, d_ in j["re"]]).reshape(shape)
+    im = np.array([float(Fraction(n, d_)) for n, d_ in j["im"]]).reshape(shape)
+    return re + 1j * im
+
+
+def _pval(e):
+    return np.atleast_2d(np.array(e.np, dtype=complex))
+
+
+def _picos_layout(P, form, D, k):
+    """[(kind, constraint)] of the captured problem, and whether the layout is the modelled one.  CorrespondenceBroken when the VARIABLES are
+    not those of the modelled program (no point of the model can be written into it)."""
+    n_meas = k + 1 if form == "unamb" else k
+    want = sorted([f"M[{i}]" for i in range(n_meas)]) if form != "dual" else sorted([f"Q[{i}]" for i in range(k)] + ["Y"])
+    names = sorted(P.variables.keys())
+    if names != want:
+        raise CorrespondenceBroken(f"ppt_distinguishability/{form}: the captured picos problem has variables {names}, the modelled program has {want}")
+    for n_, v in P.variables.items():
+        if tuple(v.shape) != (D, D):
+            raise CorrespondenceBroken(f"ppt_distinguishability/{form}: variable {n_} has shape {tuple(v.shape)}, the modelled program has {(D, D)}")
+    cons = []
+    for c in P.constraints.values():
+        if hasattr(c, "psd"):
+            cons.append(("psd", c))
+        elif hasattr(c, "lhs") and hasattr(c, "rhs") and "Affine" in type(c).__name__ and "=" in str(c) and "≤" not in str(c) and "≥" not in str(c):
+            cons.append(("eq", c))
+        else:
+            cons.append(("other", c))
+    kinds = [kd for kd, _ in cons]
+    want_kinds = {"primal": ["psd"] * k + ["eq"] + ["psd"] * k, "dual": ["psd"] * (2 * k),
+                  "unamb": ["psd"] * (k + 1) + ["eq"] + ["psd"] * (k + 1) + ["eq"] * (k * (k - 1))}[form]
+    return cons, kinds == want_kinds
+
+
+def _picos_residuals(cons):
+    out = []
+    for kd, c in cons:
+        if kd == "psd":
+            out.append((kd, _pval(c.psd)))
+        elif kd == "eq":
+            out.append((kd, _pval(c.lhs) - _pval(c.rhs)))
+        else:
+            out.append((kd, np.atleast_2d(np.array(c.slack, dtype=float))))
+    return out
+
+
+def _picos_violation(capt):
+    vio = 0.0
+    for kc, a in capt:
+        if not a.size:
+            continue
+        if kc == "psd":
+            vio = max(vio, -float(np.min(np.linalg.eigvalsh((a + a.conj().T) / 2))), float(np.max(np.abs(a - a.conj().T))))
+        elif kc == "eq":
+            vio = max(vio, float(np.max(np.abs(a))))
+        else:
+            vio = max(vio, -float(np.min(np.real(a))))
+    return vio
+
+
+def _pad_cols(v: DM, D):
+    """column vector -> D x D witness with the vector as its first column"""
+    re = np.zeros((D, D), dtype=object)
+    im = np.zeros((D, D), dtype=object)
+    re[:, 0] = v.re[:, 0]
+    im[:, 0] = v.im[:, 0]
+    return DM(re, im, v.e)
+
+
+def _zero_dm(D):
+    return DM.eye(D) - DM.eye(D)
+
+
+def _unamb_points(inst, rhos, probs, dA, dB, sys):
+    """exact feasible points of the unambiguous PPT program: (label, M list (k+1), LM, LT).
+    'trivial': M_i = 0, M_k = 1 (always inconclusive).
+    'product' (two pure states given as vectors): M_i = phi_i phi_i^H / 16 with the product vector phi_i = e_a (x) b_i orthogonal to the other
+    state (b_i = (conj c_1, -conj c_0, 0..) for c = (<e_a| (x) 1) psi_other), M_2 = 1 - M_0 - M_1; all of them PPT with margin."""
+    D, k = dA * dB, inst["k"]
+    Z, I = _zero_dm(D), DM.eye(D)
+    pts = [("trivial", [Z] * k + [I], [Z] * k + [I], [Z] * k + [I])]
+    vec_in = all(np.asarray(s).ndim == 1 or 1 in np.asarray(s).shape for s in inst["states"])
+    if k == 2 and vec_in:
+        vs = [DM.exact_float(np.asarray(s).reshape(-1, 1)) for s in inst["states"]]
+        Ms, LMs, LTs = [], [], []
+        for i in range(2):
+            o = vs[1 - i]
+            a = 0
+            c = [(o.re[a * dB + b, 0], o.im[a * dB + b, 0]) for b in range(dB)]
+            if all(x == 0 and y == 0 for x, y in c):
+                bre, bim = [1] + [0] * (dB - 1), [0] * dB
+            else:
+                # b = (conj c_1, -conj c_0, 0, ...):  sum_b conj(c_b) b_b = 0
+                bre, bim = [c[1][0], -c[0][0]] + [0] * (dB - 2), [-c[1][1], c[0][1]] + [0] * (dB - 2)
+            phi_re = np.zeros((D, 1), dtype=object)
+            phi_im = np.zeros((D, 1), dtype=object)
+            for b in range(dB):
+                phi_re[a * dB + b, 0], phi_im[a * dB + b, 0] = bre[b], bim[b]
+            phi = DM(phi_re, phi_im, o.e + 2)          # phi / 4
+            phic = DM(phi_re, -phi_im, o.e + 2)        # e_a (x) conj(b) / 4 : the partial transpose of phi phi^H on either party (e_a is real)
+            Ms.append(phi @ phi.H())
+            LMs.append(_pad_cols(phi, D))
+            LTs.append(_pad_cols(phic if sys == 1 else phi, D))
+        # transposing the first party of (e_a e_a^T) (x) (b b^H) leaves it unchanged; transposing the second gives e_a e_a^T (x) conj(b b^H)
+        Mk = I - Ms[0] - Ms[1]
+        Lk = chol_factor(Mk.to_float())
+        Ltk = chol_factor(pt_dm(Mk, dA, dB, sys).to_float())
+        if Lk is not None and Ltk is not None:
+            pts.append(("product", Ms + [Mk], LMs + [Lk], LTs + [Ltk]))
+    return pts
+
+
+def ppt_embedding(drv, inst, res, rhos, rhos_f, ref, lo):
+    from toqito.state_opt import ppt_distinguishability
+    dA, dB, k, probs, states = inst["dA"], inst["dB"], inst["k"], inst["probs"], inst["states"]
+    D = dA * dB
+    base = _base(inst)
+    I = DM.eye(D)
+    thm = "primal_program_feasible_iff / dual_program_feasible_iff / checkPPTPrimal_sound / checkPPTDual_sound / checkPPTUnambPrimal_sound (the programs they speak about)"
+    sp = int(inst.get("sys_primal", 1))
+    common = {"dA": dA, "dB": dB, "rho": [r_.json() for r_ in rhos], "p": _pj(probs)}
+    forms = [("primal", "min_error", "primal", 0), ("primal", "min_error", "primal", 1), ("dual", "min_error", "dual", 0), ("dual", "min_error", "dual", 1),
+             ("unamb", "unambig", "primal", sp)]
+    for form, strategy, pd, sys in forms:
+        desc0 = dict(base, fn="ppt_embedding", form=form, subsystems=[sys], probs_given=inst["probs_given"])
+        prng = call_rng(inst.get("pres"), "pemb", form, sys)
+        arg_states = present_list(prng, states, force_real=inst.get("real_idx", ()))
+        try:
+            got = _capture_picos(lambda: ppt_distinguishability(vectors=arg_states, subsystems=[sys], dimensions=[dA, dB],
+                                                                probs=(list(probs) if inst["probs_given"] else None), strategy=strategy, solver="cvxopt", primal_dual=pd))
+        except Exception as e:  # noqa: BLE001
+            res.case(desc0, True, f"ppt-embedding/{form}/raise")
+            res.violation(f"ppt_distinguishability({strategy}, {pd}, subsystems=[{sys}]) raises {type(e).__name__}: {str(e)[:120]} while building its program for a valid ensemble",
+                          {"function": "ppt_distinguishability", "args": desc0, "exception": f"{type(e).__name__}: {str(e)[:300]}", "theorem": thm})
+            continue
+        if len(got) != 1:
+            raise CorrespondenceBroken(f"ppt_distinguishability({strategy},{pd}): expected one picos problem handed to solve(), captured {len(got)}")
+        P, kw = got[0]
+        res.count("ppt-embedding/problems-captured")
+        cons, same_layout = _picos_layout(P, form, D, k)
+        res.count("ppt-embedding/constraints-captured", len(cons))
+        if not same_layout:
+            res.count("ppt-embedding/other-constraint-layout")
+        direction = "min" if form == "dual" else "max"
+        if P.objective.direction != direction:
+            res.violation(f"ppt_distinguishability({strategy},{pd}) hands a '{P.objective.direction}' problem to the solver, the modelled program is a '{direction}' problem",
+                          {"function": "ppt_distinguishability", "args": desc0, "impl": P.objective.direction, "model": direction, "check": "embedding-direction", "theorem": "ppt_weak_duality"})
+            continue
+        # ---- points: (label, point dict) and negative controls (label, point dict, infeasible-by-construction?)
+        points, controls = [], []
+        if form == "primal":
+            P0 = repair_povm([np.eye(D) / k] * k, eps_bits=24)
+            points.append(("interior", {"M": P0, "LM": [chol_factor(M.to_float()) for M in P0], "LT": [chol_factor(pt_dm(M, dA, dB, sys).to_float()) for M in P0]}))
+            if ref.get("Ms") is not None:
+                out = {}
+                certify_primal(drv, rhos, probs, ref["Ms"], dA, dB, sys, out=out)
+                if out:
+                    points.append(("near-optimal", {"M": out["M"], "LM": out["LM"], "LT": out["LT"]}))
+            controls.append(("M[0]+1/8", {"M": [P0[0] + I.scale_dy(1, 3)] + P0[1:]}))
+            # a measurement that is not PPT: the projector onto (e_00 + e_11)/sqrt 2 and its complement (partial transpose has the eigenvalue -1/2)
+            Bre = np.zeros((D, D), dtype=object)
+            for (a_, b_) in ((0, 0), (0, dB + 1), (dB + 1, 0), (dB + 1, dB + 1)):
+                Bre[a_, b_] = 1
+            Bell = DM(Bre, np.zeros((D, D), dtype=object), 1)
+            controls.append(("entangled-projector", {"M": [Bell, I - Bell] + [_zero_dm(D)] * (k - 2)}))
+        elif form == "dual":
+            Y0 = I
+            Q0 = [_zero_dm(D)] * k
+            LS0 = []
+            for i in range(k):
+                pi = DM.exact_float(np.array([[probs[i]]]))
+                LS0.append(chol_factor((Y0 - rhos[i].scale_dy(int(pi.re[0, 0]), pi.e)).to_float(), delta=2.0 ** -40))
+            points.append(("interior", {"Y": Y0, "Q": Q0, "LQ": Q0, "LS": LS0}))
+            controls.append(("Q[0]=-1/8", {"Y": Y0, "Q": [_zero_dm(D) - I.scale_dy(1, 3)] + Q0[1:]}))
+            if ref.get("Y") is not None:
+                Qs_f = ref["Qs"] if ref["sys_dual"] == sys else [np.asarray(Q).T for Q in ref["Qs"]]   # T_A(Q^T) = T_B(Q)
+                out = {}
+                certify_dual(drv, rhos, probs, ref["Y"], Qs_f, dA, dB, sys, out=out)
+                if out:
+                    points.append(("near-optimal", {"Y": out["Y"], "Q": out["Q"], "LQ": out["LQ"], "LS": out["LS"]}))
+                    if lo is not None and float(out["Y"].trace_re()) - D / 32 < lo - 1e-2:
+                        # tr(Y - 1/32) is below a certified lower bound of the optimum: infeasible by weak duality (ppt_lo_le_hi)
+                        controls.append(("Y-optimal-minus-1/32", {"Y": out["Y"] - I.scale_dy(1, 5), "Q": out["Q"]}))
+        else:
+            for label, Ms_, LM_, LT_ in _unamb_points(inst, rhos, probs, dA, dB, sys):
+                points.append((label, {"M": Ms_, "LM": LM_, "LT": LT_}))
+            Pt = points[0][1]["M"]
+            controls.append(("M[0]+1/8", {"M": [Pt[0] + I.scale_dy(1, 3)] + Pt[1:]}))
+            # the uniform measurement answers wrongly with positive probability unless the states are orthogonal
+            P0 = repair_povm([np.eye(D) / k] * k, eps_bits=24)
+            ov = min(float(np.real(np.trace(rhos_f[j] @ P0[i].to_float()))) * probs[j] for i in range(k) for j in range(k) if i != j)
+            if ov >= 1e-2:
+                controls.append(("uniform-guess", {"M": P0 + [_zero_dm(D)]}))
+        for pname, pt in points:
+            if any(v is None for kk in pt for v in (pt[kk] if isinstance(pt[kk], list) else [pt[kk]])):
+                res.count(f"ppt-embedding/{form}/{pname}-witness-failed")
+                continue
+            desc = dict(desc0, point=pname)
+            m = drv.ask("c12_ppt_program", dict(common, sys=sys, form=form, **{kk: ([x.json() for x in v] if isinstance(v, list) else v.json()) for kk, v in pt.items()}))
+            if "reject" in m:
+                raise RuntimeError(f"c12_ppt_program rejected the request: {m}")
+            feasible = "ok" in m["check"]
+            if not feasible:
+                res.count(f"ppt-embedding/{form}/{pname}-point-not-certified")
+            ptj = {kk: ([x.json() for x in v] if isinstance(v, list) else v.json()) for kk, v in pt.items() if not kk.startswith("L")}
+            try:
+                if form == "dual":
+                    P.variables["Y"].value = pt["Y"].to_float()
+                    for i in range(k):
+                        P.variables[f"Q[{i}]"].value = pt["Q"][i].to_float()
+                else:
+                    for i in range(len(pt["M"])):
+                        P.variables[f"M[{i}]"].value = pt["M"][i].to_float()
+            except Exception as e:  # noqa: BLE001
+                res.case(desc, True, f"ppt-embedding/{form}/variable-refuses-point")
+                res.violation(f"ppt_distinguishability({strategy},{pd}): a point of the modelled program cannot be written into the variables of the program the code builds ({type(e).__name__}: {str(e)[:160]})",
+                              {"function": "ppt_distinguishability", "args": desc, "impl": str(e)[:200], "model": "feasible" if feasible else "uncertified", "check": "embedding-variable", "point": ptj, "theorem": thm})
+                break
+            capt = _picos_residuals(cons)
+            model = [("psd", _qmat12(x, (D, D))) for x in m["psd"]] + [("eq", _qmat12(x, (D, D))) for x in m["eq"]]
+            model += [("eq", np.array([[float(Fraction(z[0], z[1])) + 1j * float(Fraction(z[2], z[3]))]])) for z in m["zero"]]
+            # the code lists its constraints as: PSD of the variables, (sum = 1), PSD of the partial transposes, (overlaps); the model lists psd, eq, zero
+            order_c = [a for kc, a in capt if kc == "psd"] + [a for kc, a in capt if kc == "eq"]
+            order_m = [b for _, b in model]
+            identical = same_layout and len(order_c) == len(order_m) and all(a.shape == b.shape for a, b in zip(order_c, order_m)) and \
+                all(float(np.max(np.abs(a - b))) <= PEMB_TOL * max(1.0, float(np.max(np.abs(b)))) for a, b in zip(order_c, order_m))
+            res.count("ppt-embedding/expressions-identical" if identical else "ppt-embedding/expressions-differ")
+            obj_c = complex(P.objective.function.value)
+            obj_m = float(Fraction(*m["objective"]))
+            res.case(desc, feasible, f"ppt-embedding/{form}/sys{sys}/{pname}/{inst['form']}/{'c' if inst['cplx'] else 'r'}/{'feasible' if feasible else 'uncertified'}")
+            if abs(obj_c - obj_m) > 1e-11 * max(1.0, abs(obj_m)):
+                res.violation(f"ppt_distinguishability({strategy},{pd},subsystems=[{sys}]): the objective of the program the code builds is {obj_c!r} at an exact point, the modelled objective is {obj_m!r}",
+                              {"function": "ppt_distinguishability", "args": desc, "impl": [obj_c.real, obj_c.imag], "model": obj_m, "check": "embedding-objective", "point": ptj, "theorem": thm})
+                break
+            if feasible:
+                vio = _picos_violation(capt)
+                if vio > PEMB_FEAS:
+                    res.violation(f"ppt_distinguishability({strategy},{pd},subsystems=[{sys}], dimensions=[{dA},{dB}]): a point the verified checker accepts ({pname}) violates a constraint of the program the code builds by {vio:.3e}",
+                                  {"function": "ppt_distinguishability", "args": desc, "impl": vio, "model": "feasible", "check": "embedding-feasible", "point": ptj, "theorem": thm})
+                    break
+                res.count("ppt-embedding/feasible-points-embedded")
+        for label, pt2 in controls:
+            m2 = drv.ask("c12_ppt_program", dict(common, sys=sys, form=form, **{kk: ([x.json() for x in v] if isinstance(v, list) else v.json()) for kk, v in pt2.items()}))
+            if "ok" in m2.get("check", {}):
+                raise RuntimeError(f"negative control {label}: the verified checker accepted an infeasible point")
+            # infeasible for the MODEL by a margin: a PSD expression with an eigenvalue below -1e-2, or an equality residual above 1e-2
+            mm = [_qmat12(x, (D, D)) for x in m2["psd"]]
+            margin = max([-float(np.min(np.linalg.eigvalsh((x + x.conj().T) / 2))) for x in mm] + [float(np.max(np.abs(_qmat12(x, (D, D))))) for x in m2["eq"]]
+                         + [abs(float(Fraction(z[0], z[1])) + 1j * float(Fraction(z[2], z[3]))) for z in m2["zero"]])
+            if margin < 1e-2 and not label.startswith("Y-optimal"):
+                continue
+            try:
+                if form == "dual":
+                    P.variables["Y"].value = pt2["Y"].to_float()
+                    for i in range(k):
+                        P.variables[f"Q[{i}]"].value = pt2["Q"][i].to_float()
+                else:
+                    for i in range(len(pt2["M"])):
+                        P.variables[f"M[{i}]"].value = pt2["M"][i].to_float()
+            except Exception:  # noqa: BLE001
+                continue
+            vio = _picos_violation(_picos_residuals(cons))
+            res.count(f"ppt-embedding/negative-controls/{form}/{label}")
+            if vio < PEMB_BAD:
+                res.violation(f"ppt_distinguishability({strategy},{pd},subsystems=[{sys}], dimensions=[{dA},{dB}]): the infeasible point '{label}' (rejected by the model) satisfies every constraint of the program the code builds "
+                              f"(largest violation {vio:.3e}): a constraint is missing or weakened",
+                              {"function": "ppt_distinguishability", "args": dict(desc0, control=label), "impl": vio, "model": "infeasible", "check": "embedding-negative-control",
+                               "point": {kk: ([x.json() for x in v] if isinstance(v, list) else v.json()) for kk, v in pt2.items()}, "theorem": thm})
 
 
 # ------------------------------------------------------------------------------------------------
@@ -341,7 +674,8 @@ def work(task, res: Result):
     drv = worker_driver()
     dA, dB, k, probs, states = inst["dA"], inst["dB"], inst["k"], inst["probs"], inst["states"]
     sp = int(inst.get("sys_primal", 1))
-    lo, hi, rhos, rhos_f = certified_interval(drv, inst, res, sys_primal=sp, sys_dual=1 - sp)
+    ref = {}
+    lo, hi, rhos, rhos_f = certified_interval(drv, inst, res, sys_primal=sp, sys_dual=1 - sp, ref=ref)
     ok_iv = lo is not None and hi is not None and hi - lo <= WIDTH_OK
     base = _base(inst)
     maxp = max(probs)
@@ -388,6 +722,8 @@ def work(task, res: Result):
             res.violation(f"ppt_distinguishability({pd}, subsystems=[{sys}], dimensions=[{dA},{dB}]) = {val:.8f} outside the certified PPT optimum [{lo:.8f}, {hi:.8f}]",
                           {"function": "ppt_distinguishability", "args": desc, "impl": val, "certified": [lo, hi], "tau": TAU,
                            "theorem": "checkPPTPrimal_sound / checkPPTDual_sound / ppt_lo_le_hi", "presentation": describe(arg_states)})
+    # the programs the code builds (captured, never solved) against the modelled programs at exact points
+    ppt_embedding(drv, inst, res, rhos, rhos_f, ref, lo if ok_iv else None)
     if not vals:
         return
     # primal = dual, party irrelevant (also when the interval could not be certified)
@@ -917,6 +1253,66 @@ def _bucket(r):
     return f"1e{int(np.ceil(np.log10(r)))}"
 
 
+def _symext_expr_identity(drv, P, mvars, xvars, dA, dB, level, k, seed, res):
+    """evidence: the constraint expressions of the captured program against the Lean mirror model `symExtExprs` (op c12_symext_exprs:
+    Toq.PartialOps.partialTrace / partialTranspose, Toq.Combinat.symProjN composed as in the code) at random Hermitian Gaussian-integer
+    points - generic, infeasible points, so every entry of every linear map is compared.  Differences are counted and noted, never an alarm
+    by themselves (an equivalent reformulation of a constraint is not a defect)."""
+    D, N = dA * dB, dA * dB ** level
+    per = 5 + level - 1
+    kinds = [type(c).__name__ for c in P.constraints]
+    want = (["Equality", "PSD", "PSD", "Equality"] + ["PSD"] * level) * k + ["Equality"]
+    if kinds != want:
+        res.count("symext/expressions/other-layout")
+        return
+    rng = np.random.default_rng(seed)
+
+    def herm_int(n):
+        A = rng.integers(-3, 4, size=(n, n)) + 1j * rng.integers(-3, 4, size=(n, n))
+        return A + A.conj().T
+
+    Ms = [herm_int(D) for _ in range(k)]
+    Xs = [herm_int(N) for _ in range(k)]
+    for i in range(k):
+        mvars[i].save_value(Ms[i].astype(complex))
+        xvars[i].save_value(Xs[i].astype(complex))
+
+    def mat(pr, n):
+        return np.array(pr[0], dtype=float).reshape(n, n) + 1j * np.array(pr[1], dtype=float).reshape(n, n)
+
+    worst = 0.0
+    for blk in range(k):
+        cs = P.constraints[blk * per:(blk + 1) * per]
+        vs = cs[0].variables()
+        mi = [i for i in range(k) if any(v is mvars[i] for v in vs)]
+        xi = [i for i in range(k) if any(v is xvars[i] for v in vs)]
+        if len(mi) != 1 or len(xi) != 1:
+            res.count("symext/expressions/other-layout")
+            return
+        M, X = Ms[mi[0]], Xs[xi[0]]
+        m = drv.ask("c12_symext_exprs", {"dx": dA, "dy": dB, "level": level,
+                                         "meas_re": [int(x) for x in M.real.reshape(-1)], "meas_im": [int(x) for x in M.imag.reshape(-1)],
+                                         "x_re": [int(x) for x in X.real.reshape(-1)], "x_im": [int(x) for x in X.imag.reshape(-1)]})
+        if "reject" in m or len(m["pts"]) != level:
+            raise InfraError(f"c12_symext_exprs: unexpected answer {str(m)[:200]}")
+        pairs = [(np.asarray(cs[0].args[0].value) - np.asarray(cs[0].args[1].value), mat(m["trace"], D), 1.0),
+                 ((np.asarray(cs[3].args[0].value) - np.asarray(cs[3].args[1].value)) * m["sym_scale"], mat(m["sym"], N), float(m["sym_scale"])),
+                 (np.asarray(cs[1].args[0].value), X.astype(complex), 1.0), (np.asarray(cs[2].args[0].value), M.astype(complex), 1.0)]
+        pairs += [(np.asarray(c.args[0].value), mat(m["pts"][t], N), 1.0) for t, c in enumerate(cs[4:])]
+        for a, b, sc in pairs:
+            if a.shape != b.shape:
+                worst = float("inf")
+            else:
+                worst = max(worst, float(np.max(np.abs(a - b))) / sc)
+    res.count("symext/expressions/compared", k * per)
+    if worst <= 1e-9:
+        res.count("symext/expressions/identical")
+    else:
+        res.count("symext/expressions/differ")
+        res.note(f"symmetric_extension_hierarchy(level={level}) on {dA}x{dB}: the constraint expressions of the captured program differ from the mirror model symExtExprs at a generic "
+                 f"integer point (largest difference {worst:.3e}); feasibility of separable points and the negative controls decide whether this matters")
+
+
 def work_symext_embed(task, res: Result):
     from toqito.state_opt import symmetric_extension_hierarchy
     warnings.filterwarnings("ignore")
@@ -949,6 +1345,7 @@ def work_symext_embed(task, res: Result):
                       {"function": "symmetric_extension_hierarchy (variables)", "args": base, "theorem": "separable_meas_feasible (extension space X (x) Y^(x)level)"})
         return
     res.count(f"symext/variables-identified-by/{how}")
+    _symext_expr_identity(worker_driver(), P, mvars, xvars, dA, dB, level, k, int(task.get("pt_seed", 12)), res)
     worst = 0.0
     for n, mj in enumerate(task["measurements"]):
         povm = _povm_from_json(mj["povm"])
@@ -1047,7 +1444,7 @@ def symext_tasks(ctx, quick, prs=None):
                 povm = rand_product_povm(rng, dA, dB, True if t % 2 == 0 else inst["cplx"], kind)
                 assign = None if t % 3 != 1 else [int(a) for a in rng.integers(0, inst["k"], size=len(povm))]
                 ms.append({"kind": kind, "povm": _povm_json(povm), "assign": assign})
-            tasks.append({"inst": inst, "level": level, "measurements": ms})
+            tasks.append({"inst": inst, "level": level, "measurements": ms, "pt_seed": int(rng.integers(1 << 31))})
     return tasks
 
 
@@ -1089,6 +1486,74 @@ def check_partial_transpose(ctx):
 
 
 # ------------------------------------------------------------------------------------------------
+# argument handling: which program is built for (primal_dual, strategy); the dim forms of the hierarchy (Lean: pptDispatch, symExtDims,
+# symExtSize; theorems pptDispatch_cases, symExtDims_pair / _scalar / _scalar_rejects / _omitted_square, symExt_shape)
+
+
+def _fixed_states(D, k):
+    """deterministic complex unit vectors (no random choice involved)"""
+    out = []
+    for i in range(k):
+        v = np.array([(1 + ((3 * a + 5 * i) % 4)) + 1j * ((a * a + i) % 3 - 1) for a in range(D)], dtype=complex)
+        out.append((v / np.linalg.norm(v)).reshape(-1, 1))
+    return out
+
+
+def check_args(ctx):
+    from toqito.state_opt import ppt_distinguishability, symmetric_extension_hierarchy
+    warnings.filterwarnings("ignore")
+    drv = ctx.lean()
+    # (a) dispatch of ppt_distinguishability
+    vs = _fixed_states(4, 3)
+    for pd in ("primal", "dual"):
+        for strategy in ("min_error", "unambig"):
+            desc = {"fn": "ppt_dispatch", "primal_dual": pd, "strategy": strategy}
+            model = drv.ask("c12_dispatch", {"primal_dual": pd, "strategy": strategy})
+            try:
+                got = _capture_picos(lambda: ppt_distinguishability(vectors=[v.copy() for v in vs], subsystems=[1], dimensions=[2, 2], probs=[0.5, 0.25, 0.25],
+                                                                    strategy=strategy, primal_dual=pd))
+                if len(got) != 1:
+                    raise CorrespondenceBroken(f"ppt_distinguishability({pd},{strategy}): expected one picos problem, captured {len(got)}")
+                names = sorted(got[0][0].variables.keys())
+                if "Y" in names:
+                    impl = {"program": "dual"}
+                else:
+                    neq = sum(1 for c in got[0][0].constraints.values() if not hasattr(c, "psd"))
+                    impl = {"program": "primal", "extra": len(names) == len(vs) + 1, "zero": neq > 1}
+            except ValueError:
+                impl = {"reject": "ValueError"}
+            ctx.case(desc, True, f"args/ppt-dispatch/{pd}/{strategy}")
+            if impl != model:
+                raise CorrespondenceBroken(f"ppt_distinguishability(primal_dual={pd!r}, strategy={strategy!r}) builds {impl}, the modelled dispatch (pptDispatch) gives {model}")
+    # (b) dim forms and sizes of the hierarchy
+    combos = [(4, 1, None), (4, 2, None), (4, 2, 2), (6, 1, 2), (6, 2, 2), (6, 1, 3), (6, 2, [2, 3]), (6, 1, [3, 2]), (4, 3, [2, 2]), (6, 1, 4), (4, 1, 3)]
+    for dim_xy, level, dim in combos:
+        desc = {"fn": "symext_args", "dim_xy": dim_xy, "level": level, "dim": dim}
+        model = drv.ask("c12_symext_args", {"dim_xy": dim_xy, "level": level, "dim": dim})
+        st = _fixed_states(dim_xy, 2)
+        try:
+            got = _capture(lambda: symmetric_extension_hierarchy([v.copy() for v in st], probs=[0.5, 0.5], level=level, dim=dim))
+            if len(got) != 1:
+                raise CorrespondenceBroken(f"expected one cvxpy problem from symmetric_extension_hierarchy, captured {len(got)}")
+            Pb = got[0]
+            objv = Pb.objective.variables()
+            rest = [v for v in Pb.variables() if all(v is not o for o in objv)]
+            impl = {"meas": sorted({int(v.shape[0]) for v in objv}), "ext": sorted({int(v.shape[0]) for v in rest}), "n": [len(objv), len(rest)]}
+        except ValueError as e:
+            impl = {"reject": "ValueError", "msg": str(e)[:80]}
+        ctx.case(desc, True, f"args/symext/{'reject' if 'reject' in model else 'ok'}/{'list' if isinstance(dim, list) else ('none' if dim is None else 'scalar')}")
+        if "reject" in model:
+            if "reject" not in impl:
+                ctx.violation(f"symmetric_extension_hierarchy(dim={dim!r}) on states of length {dim_xy}: the model rejects ({model['reject']}: a scalar dim must divide the length), the code builds a program {impl}",
+                              {"function": "symmetric_extension_hierarchy (arguments)", "args": desc, "impl": impl, "model": model, "theorem": "symExtDims_scalar_rejects"})
+            continue
+        want = {"meas": [dim_xy], "ext": [int(model["size"])], "n": [2, 2]}
+        if impl != want:
+            ctx.violation(f"symmetric_extension_hierarchy(level={level}, dim={dim!r}) on states of length {dim_xy}: the program has variables {impl}, the modelled cut [{model['dx']}, {model['dy']}] needs {want}",
+                          {"function": "symmetric_extension_hierarchy (arguments)", "args": desc, "impl": impl, "model": model, "theorem": "symExtDims_scalar / symExtDims_omitted_square / symExt_shape"})
+
+
+# ------------------------------------------------------------------------------------------------
 
 
 def run(ctx, model_ok=True):
@@ -1098,6 +1563,7 @@ def run(ctx, model_ok=True):
     ctx.matchers["symext_mutates_states_list"] = lambda info: (info.get("function") == "symmetric_extension_hierarchy" and info.get("mutation") is True
                                                                and info.get("form") == "col")
     check_partial_transpose(ctx)
+    check_args(ctx)
     all_calls = [("dual", 0), ("dual", 1), ("primal", 0), ("primal", 1)]  # cheap and robust form first (per-task time limit)
     tasks = []
     prs = rng.spawn(1)[0]   # presentation stream: a child of the seeded generator (spawning does not consume the parent's draws)
@@ -1155,6 +1621,9 @@ def replay(ctx, rec):
 
     if rec.get("function") == "partial_transpose":
         check_partial_transpose(ctx)
+        return
+    if a.get("fn") in ("symext_args", "ppt_dispatch"):
+        check_args(ctx)
         return
     inst = {"dA": a["dA"], "dB": a["dB"], "k": a["k"], "cplx": a["cplx"], "form": a["form"], "kind": a.get("kind", "random"), "probs": a["probs"],
             "probs_given": a.get("probs_given", True), "states": [arr(s) for s in a["states"]],
